@@ -211,11 +211,12 @@ Proof.
 Qed.
 
 Example C06_catalogue_nonvacuous :
-  In ("Reservoir Depth", false, false, "LengthUnit", "kilometer", UEnum "kilometer") gen_params /\
-  (exists units, assoc_str "LengthUnit" gen_enums = Some units /\ In "ft" units) /\
+  nth_error gen_params (param_index "Reservoir Depth" gen_params)
+    = Some ("Reservoir Depth", false, false, "LengthUnit", "kilometer", UEnum "kilometer") /\
+  (exists units, assoc_str "LengthUnit" gen_enums = Some units /\ existsb (String.eqb "ft") units = true) /\
   pair_good gen_tables "kilometer" "ft" = true.
 Proof.
-  split; [vm_compute; tauto|]. split; [eexists; split; [vm_compute; reflexivity|vm_compute; tauto]|vm_compute; reflexivity].
+  split; [vm_compute; reflexivity|]. split; [eexists; split; vm_compute; reflexivity|vm_compute; reflexivity].
 Qed.
 
 Example C06_echo_nonvacuous :
